@@ -344,6 +344,7 @@ type stepResult struct {
 	CfgError error
 	PreState map[string]string // model state of every container before the request
 	// per-reply findings, judged against the model at the time of each reply
+	PreSnap, PostSnap map[string]string // observables around a re-applied configuration
 	BadTargets []string // updates addressed to containers the runtime has stopped/removed/never had
 	DupTargets []string // more than one update for a container in one reply/push
 }
@@ -659,6 +660,15 @@ func (e *executor) exec(op hcOp) *stepResult {
 		}
 		r.collect(m, "")
 
+	case "reconfig-same":
+		// the configuration in effect is delivered again
+		r.Handler = "updateConfig(identical)"
+		r.PreSnap = e.observables()
+		r.CfgError = e.h.reconfigure(e.cfg)
+		r.Pushes = e.h.stub.takePushes()
+		r.collect(m, "")
+		r.PostSnap = e.observables()
+
 	case "reconfig":
 		r.Handler = "updateConfig"
 		r.CfgError = e.h.reconfigure(op.Cfg)
@@ -726,4 +736,35 @@ func (e *executor) taintPending() {
 	for _, pc := range e.h.m.cache.GetPendingContainers() {
 		e.tainted[pc.GetID()] = true
 	}
+}
+
+// observables summarises what a user can see: per live container the runtime
+// view and the cache view, and the advertised zones (order-normalised).
+func (e *executor) observables() map[string]string {
+	out := map[string]string{}
+	for _, c := range e.m.live() {
+		out["rt:"+c.ID] = fmt.Sprintf("cpus=%s mems=%s shares=%d quota=%d period=%d limit=%d",
+			vfkit.MustParseIDSet(c.Res.Cpus), vfkit.MustParseIDSet(c.Res.Mems), c.Res.Shares, c.Res.Quota, c.Res.Period, c.Res.Limit)
+		if cc, ok := e.h.m.cache.LookupContainer(c.ID); ok {
+			out["cache:"+c.ID] = fmt.Sprintf("cpus=%s mems=%s shares=%d", vfkit.MustParseIDSet(cc.GetCpusetCpus()), vfkit.MustParseIDSet(cc.GetCpusetMems()), cc.GetCPUShares())
+		}
+	}
+	for _, z := range e.h.m.policy.GetTopologyZones() {
+		attrs := []string{}
+		for _, a := range z.Attributes {
+			v := a.Value
+			if s, err := vfkit.ParseIDSet(v); err == nil {
+				v = s.String()
+			}
+			attrs = append(attrs, a.Name+"="+v)
+		}
+		sort.Strings(attrs)
+		res := []string{}
+		for _, r := range z.Resources {
+			res = append(res, fmt.Sprintf("%s:%s/%s/%s", r.Name, r.Capacity.String(), r.Allocatable.String(), r.Available.String()))
+		}
+		sort.Strings(res)
+		out["zone:"+z.Name+"<"+z.Parent] = fmt.Sprintf("%s %v %v", z.Type, attrs, res)
+	}
+	return out
 }
